@@ -41,7 +41,7 @@ variables
   qstate = [q \in Objs |-> "Idle"],
   qpoll  = [q \in Objs |-> 0],
   jobs   = [q \in Objs |-> << >>],
-  wakeBlocked = [q \in Objs |-> {}],
+  wakeBlocked = [q \in Objs |-> << >>],
   schedule = << >>,
   pthreads = << >>,
   nspawned = 0,
@@ -72,6 +72,8 @@ variables
   sdres = [op \in Ops |-> FALSE],
   parkTok = [t \in Procs |-> FALSE],
   rv = [t \in Procs |-> 0],
+  rwb = [t \in Procs |-> << >>],
+  rneed = [t \in Procs |-> FALSE],
   h = InitH;
 
 define {
@@ -94,6 +96,8 @@ define {
   NeedsFinish(j) == jkind[j] \in {"fut", "syncbg"}
   Unpark(tok, ts) == [t \in Procs |-> tok[t] \/ t \in ts]
   TaskOf(w) == IF w.k = "TASK" THEN {w.t} ELSE {}
+  SeqSet(sq) == {sq[i] : i \in 1..Len(sq)}
+  Claimable(q) == qstate[q] \in {"Pending", "Idle"}
 }
 
 \* The part of job.run() that precedes its first scheduling point
@@ -115,6 +119,7 @@ st_reap:     \* [threads] remove_finished_threads
   if (dead = << >>) { goto st_dormant; };
 st_join:     \* [join] despawn().join() of a finished (panicked) thread
   dead := Tail(dead);
+  h := ObsBlocked(h, self);
   if (dead # << >>) { goto st_join; };
 st_dormant:  \* [threads], or [busy] when blocked on a busy flag (FixD2)
   await (thrHeld = "" \/ thrHeld = self) /\ (thrHeld = self => ~busyLocked[pthreads[sti]]);
@@ -140,10 +145,19 @@ st_spawn:    \* [threads] spawn_thread_if_less_than_maximum
 \* ---- core.reschedule_queue
 procedure Reschedule(rq) {
 rq_core:     \* [core]
-  cnotif := [c \in Ops |-> cnotif[c] \/ (c \in wakeBlocked[rq] /\ cwait[c])];
-  if (qstate[rq] = "Idle" /\ jobs[rq] # << >>) { qstate[rq] := "Pending"; }
-  else if (qstate[rq] = "WaitingForPoll") { skip; }
+  if (FixD3) { rwb[self] := wakeBlocked[rq]; }
+  else { cnotif := [c \in Ops |-> cnotif[c] \/ (c \in SeqSet(wakeBlocked[rq]) /\ cwait[c])]; };
+  if (qstate[rq] = "Idle" /\ jobs[rq] # << >>) { qstate[rq] := "Pending"; rneed[self] := TRUE; }
+  else if (qstate[rq] = "WaitingForPoll") { rneed[self] := TRUE; }
+  else { rneed[self] := FALSE; };
+  if (FixD3 /\ wakeBlocked[rq] # << >>) { goto rq_notify; }
+  else if (rneed[self]) { goto rq_sched; }
   else { return; };
+rq_notify:   \* [ready] each blocked sync caller is notified with its 'ready' lock held
+  cnotif[Head(rwb[self])] := cwait[Head(rwb[self])];
+  rwb[self] := Tail(rwb[self]);
+  if (Len(rwb[self]) > 0) { goto rq_notify; }
+  else if (~rneed[self]) { return; };
 rq_sched:    \* [sched]
   schedule := Append(schedule, rq);
   call ScheduleThread();
@@ -180,7 +194,7 @@ wk_lock:     \* [core] WakeQueue / WakeThread, [dw] DrainWaker, [dbl] DoubleWake
       if (qstate[ww.q] = "WaitingForWake") { qstate[ww.q] := "Idle"; }
       else if (qstate[ww.q] = "Running") { qstate[ww.q] := "AwokenWhileRunning"; };
       call Reschedule(ww.q);
-      return;
+      goto z_wk_ret;
     }
   } else if (ww.k = "DW") {
     if (dwSt[ww.d] = "Will") {
@@ -197,7 +211,9 @@ wk_lock:     \* [core] WakeQueue / WakeThread, [dw] DrainWaker, [dbl] DoubleWake
   };
 z_wk_second:
   if (IsLocking(dblW2[ww.d])) { call Wake(dblW2[ww.d]); return; }
-  else { parkTok := Unpark(parkTok, TaskOf(dblW2[ww.d])); return; }
+  else { parkTok := Unpark(parkTok, TaskOf(dblW2[ww.d])); return; };
+z_wk_ret:    \* (not a tail call: PlusCal does not restore the parameters of a recursive procedure across a tail call to another procedure)
+  return;
 }
 
 \* ---- the harness closure / future body of an operation, or (bown = 0) the program of a caller thread
@@ -343,6 +359,7 @@ ro_check:    \* [core]
 ro_parked:   \* [park]
   await parkTok[self];
   parkTok[self] := FALSE;
+  h := ObsBlocked(h, self);
   goto ro_check;
 }
 
@@ -372,14 +389,19 @@ sd_idle:     \* [core]
   call Reschedule(yq);
   goto z_si_ret;
 sb_reg:      \* [core]
-  wakeBlocked[yq] := wakeBlocked[yq] \cup {yop};
+  wakeBlocked[yq] := Append(wakeBlocked[yq], yop);
 sb_push:     \* [core]
   jkind[yop] := "syncbg";
   jobs[yq] := Append(jobs[yq], yop);
   if (qstate[yq] = "Idle") { call Reschedule(yq); };
 sb_lock:     \* [ready]
   if (ready[yop]) { goto sb_fin; }
-  else if (FixD3 /\ qstate[yq] \in {"Pending", "Idle"}) { skip; }
+  else if (FixD3 /\ Claimable(yq)) {
+    \* repaired code: the queue is claimed with the 'ready' lock held, before waiting
+    qstate[yq] := "Running";
+    schedule := SelectSeq(schedule, LAMBDA x : x # yq);
+    goto sb_chk;
+  }
   else { cwait[yop] := TRUE; cnotif[yop] := FALSE; goto sb_wait; };
 sb_claim:    \* [sched] claim_pending_queue
   if (qstate[yq] \in {"Pending", "Idle"}) {
@@ -394,10 +416,18 @@ sb_idle:     \* [core]
   goto sb_lock;
 sb_wait:     \* [wait]
   await cnotif[yop];
-  cwait[yop] := FALSE; cnotif[yop] := FALSE;
-  if (ready[yop]) { goto sb_fin; } else { goto sb_claim; };
+  h := ObsBlocked(h, self);
+  if (ready[yop]) { cwait[yop] := FALSE; cnotif[yop] := FALSE; goto sb_fin; }
+  else if (~FixD3) { cwait[yop] := FALSE; cnotif[yop] := FALSE; goto sb_claim; }
+  else if (Claimable(yq)) {
+    cwait[yop] := FALSE; cnotif[yop] := FALSE;
+    qstate[yq] := "Running";
+    schedule := SelectSeq(schedule, LAMBDA x : x # yq);
+    goto sb_chk;
+  }
+  else { cnotif[yop] := FALSE; goto sb_wait; };
 sb_fin:      \* [core]
-  wakeBlocked[yq] := wakeBlocked[yq] \ {yop};
+  wakeBlocked[yq] := SelectSeq(wakeBlocked[yq], LAMBDA x : x # yop);
   rv[self] := 0;
   return;
 }
@@ -531,7 +561,7 @@ VARIABLES pc, qstate, qpoll, jobs, wakeBlocked, schedule, pthreads, nspawned,
           palive, busy, busyLocked, inbox, chanOpen, pfin, thrHeld, 
           maxThreads, jkind, jaw, fres, fwaker, gfired, gwaker, gthreads, 
           dwSt, dwW, dblTaken, dblW1, dblW2, nextDW, ready, cwait, cnotif, 
-          sdres, parkTok, rv, h, stack
+          sdres, parkTok, rv, rwb, rneed, h, stack
 
 (* define statement *)
 RECURSIVE NTR(_)
@@ -553,6 +583,8 @@ ImmPending(j) == jkind[j] = "fut" /\ jaw[j] > 0 /\ Aw(j)[jaw[j]] \notin gfired
 NeedsFinish(j) == jkind[j] \in {"fut", "syncbg"}
 Unpark(tok, ts) == [t \in Procs |-> tok[t] \/ t \in ts]
 TaskOf(w) == IF w.k = "TASK" THEN {w.t} ELSE {}
+SeqSet(sq) == {sq[i] : i \in 1..Len(sq)}
+Claimable(q) == qstate[q] \in {"Pending", "Idle"}
 
 VARIABLES dead, sti, rq, sq, sj, ww, rsq, bown, bwk, bi, bcur, bw, fj, dq, dj, 
           oq, oop, omode, oj, yq, yop, tq, top, af, pf, pctx, pq, pj, pd, nq
@@ -561,9 +593,9 @@ vars == << pc, qstate, qpoll, jobs, wakeBlocked, schedule, pthreads, nspawned,
            palive, busy, busyLocked, inbox, chanOpen, pfin, thrHeld, 
            maxThreads, jkind, jaw, fres, fwaker, gfired, gwaker, gthreads, 
            dwSt, dwW, dblTaken, dblW1, dblW2, nextDW, ready, cwait, cnotif, 
-           sdres, parkTok, rv, h, stack, dead, sti, rq, sq, sj, ww, rsq, bown, 
-           bwk, bi, bcur, bw, fj, dq, dj, oq, oop, omode, oj, yq, yop, tq, 
-           top, af, pf, pctx, pq, pj, pd, nq >>
+           sdres, parkTok, rv, rwb, rneed, h, stack, dead, sti, rq, sq, sj, 
+           ww, rsq, bown, bwk, bi, bcur, bw, fj, dq, dj, oq, oop, omode, oj, 
+           yq, yop, tq, top, af, pf, pctx, pq, pj, pd, nq >>
 
 ProcSet == (Threads) \cup (PoolSet)
 
@@ -571,7 +603,7 @@ Init == (* Global variables *)
         /\ qstate = [q \in Objs |-> "Idle"]
         /\ qpoll = [q \in Objs |-> 0]
         /\ jobs = [q \in Objs |-> << >>]
-        /\ wakeBlocked = [q \in Objs |-> {}]
+        /\ wakeBlocked = [q \in Objs |-> << >>]
         /\ schedule = << >>
         /\ pthreads = << >>
         /\ nspawned = 0
@@ -602,6 +634,8 @@ Init == (* Global variables *)
         /\ sdres = [op \in Ops |-> FALSE]
         /\ parkTok = [t \in Procs |-> FALSE]
         /\ rv = [t \in Procs |-> 0]
+        /\ rwb = [t \in Procs |-> << >>]
+        /\ rneed = [t \in Procs |-> FALSE]
         /\ h = InitH
         (* Procedure ScheduleThread *)
         /\ dead = [ self \in ProcSet |-> << >>]
@@ -662,14 +696,15 @@ st_reap(self) == /\ pc[self] = "st_reap"
                                  chanOpen, pfin, thrHeld, maxThreads, jkind, 
                                  jaw, fres, fwaker, gfired, gwaker, gthreads, 
                                  dwSt, dwW, dblTaken, dblW1, dblW2, nextDW, 
-                                 ready, cwait, cnotif, sdres, parkTok, rv, h, 
-                                 stack, sti, rq, sq, sj, ww, rsq, bown, bwk, 
-                                 bi, bcur, bw, fj, dq, dj, oq, oop, omode, oj, 
-                                 yq, yop, tq, top, af, pf, pctx, pq, pj, pd, 
-                                 nq >>
+                                 ready, cwait, cnotif, sdres, parkTok, rv, rwb, 
+                                 rneed, h, stack, sti, rq, sq, sj, ww, rsq, 
+                                 bown, bwk, bi, bcur, bw, fj, dq, dj, oq, oop, 
+                                 omode, oj, yq, yop, tq, top, af, pf, pctx, pq, 
+                                 pj, pd, nq >>
 
 st_join(self) == /\ pc[self] = "st_join"
                  /\ dead' = [dead EXCEPT ![self] = Tail(dead[self])]
+                 /\ h' = ObsBlocked(h, self)
                  /\ IF dead'[self] # << >>
                        THEN /\ pc' = [pc EXCEPT ![self] = "st_join"]
                        ELSE /\ pc' = [pc EXCEPT ![self] = "st_dormant"]
@@ -679,10 +714,10 @@ st_join(self) == /\ pc[self] = "st_join"
                                  jkind, jaw, fres, fwaker, gfired, gwaker, 
                                  gthreads, dwSt, dwW, dblTaken, dblW1, dblW2, 
                                  nextDW, ready, cwait, cnotif, sdres, parkTok, 
-                                 rv, h, stack, sti, rq, sq, sj, ww, rsq, bown, 
-                                 bwk, bi, bcur, bw, fj, dq, dj, oq, oop, omode, 
-                                 oj, yq, yop, tq, top, af, pf, pctx, pq, pj, 
-                                 pd, nq >>
+                                 rv, rwb, rneed, stack, sti, rq, sq, sj, ww, 
+                                 rsq, bown, bwk, bi, bcur, bw, fj, dq, dj, oq, 
+                                 oop, omode, oj, yq, yop, tq, top, af, pf, 
+                                 pctx, pq, pj, pd, nq >>
 
 st_dormant(self) == /\ pc[self] = "st_dormant"
                     /\ (thrHeld = "" \/ thrHeld = self) /\ (thrHeld = self => ~busyLocked[pthreads[sti[self]]])
@@ -709,10 +744,10 @@ st_dormant(self) == /\ pc[self] = "st_dormant"
                                     fres, fwaker, gfired, gwaker, gthreads, 
                                     dwSt, dwW, dblTaken, dblW1, dblW2, nextDW, 
                                     ready, cwait, cnotif, sdres, parkTok, rv, 
-                                    h, rq, sq, sj, ww, rsq, bown, bwk, bi, 
-                                    bcur, bw, fj, dq, dj, oq, oop, omode, oj, 
-                                    yq, yop, tq, top, af, pf, pctx, pq, pj, pd, 
-                                    nq >>
+                                    rwb, rneed, h, rq, sq, sj, ww, rsq, bown, 
+                                    bwk, bi, bcur, bw, fj, dq, dj, oq, oop, 
+                                    omode, oj, yq, yop, tq, top, af, pf, pctx, 
+                                    pq, pj, pd, nq >>
 
 st_max(self) == /\ pc[self] = "st_max"
                 /\ TRUE
@@ -723,10 +758,10 @@ st_max(self) == /\ pc[self] = "st_max"
                                 jkind, jaw, fres, fwaker, gfired, gwaker, 
                                 gthreads, dwSt, dwW, dblTaken, dblW1, dblW2, 
                                 nextDW, ready, cwait, cnotif, sdres, parkTok, 
-                                rv, h, stack, dead, sti, rq, sq, sj, ww, rsq, 
-                                bown, bwk, bi, bcur, bw, fj, dq, dj, oq, oop, 
-                                omode, oj, yq, yop, tq, top, af, pf, pctx, pq, 
-                                pj, pd, nq >>
+                                rv, rwb, rneed, h, stack, dead, sti, rq, sq, 
+                                sj, ww, rsq, bown, bwk, bi, bcur, bw, fj, dq, 
+                                dj, oq, oop, omode, oj, yq, yop, tq, top, af, 
+                                pf, pctx, pq, pj, pd, nq >>
 
 st_spawn(self) == /\ pc[self] = "st_spawn"
                   /\ thrHeld = ""
@@ -749,28 +784,36 @@ st_spawn(self) == /\ pc[self] = "st_spawn"
                                   maxThreads, jkind, jaw, fres, fwaker, gfired, 
                                   gwaker, gthreads, dwSt, dwW, dblTaken, dblW1, 
                                   dblW2, nextDW, ready, cwait, cnotif, sdres, 
-                                  parkTok, rv, rq, sq, sj, ww, rsq, bown, bwk, 
-                                  bi, bcur, bw, fj, dq, dj, oq, oop, omode, oj, 
-                                  yq, yop, tq, top, af, pf, pctx, pq, pj, pd, 
-                                  nq >>
+                                  parkTok, rv, rwb, rneed, rq, sq, sj, ww, rsq, 
+                                  bown, bwk, bi, bcur, bw, fj, dq, dj, oq, oop, 
+                                  omode, oj, yq, yop, tq, top, af, pf, pctx, 
+                                  pq, pj, pd, nq >>
 
 ScheduleThread(self) == st_reap(self) \/ st_join(self) \/ st_dormant(self)
                            \/ st_max(self) \/ st_spawn(self)
 
 rq_core(self) == /\ pc[self] = "rq_core"
-                 /\ cnotif' = [c \in Ops |-> cnotif[c] \/ (c \in wakeBlocked[rq[self]] /\ cwait[c])]
+                 /\ IF FixD3
+                       THEN /\ rwb' = [rwb EXCEPT ![self] = wakeBlocked[rq[self]]]
+                            /\ UNCHANGED cnotif
+                       ELSE /\ cnotif' = [c \in Ops |-> cnotif[c] \/ (c \in SeqSet(wakeBlocked[rq[self]]) /\ cwait[c])]
+                            /\ rwb' = rwb
                  /\ IF qstate[rq[self]] = "Idle" /\ jobs[rq[self]] # << >>
                        THEN /\ qstate' = [qstate EXCEPT ![rq[self]] = "Pending"]
-                            /\ pc' = [pc EXCEPT ![self] = "rq_sched"]
-                            /\ UNCHANGED << stack, rq >>
+                            /\ rneed' = [rneed EXCEPT ![self] = TRUE]
                        ELSE /\ IF qstate[rq[self]] = "WaitingForPoll"
-                                  THEN /\ TRUE
-                                       /\ pc' = [pc EXCEPT ![self] = "rq_sched"]
+                                  THEN /\ rneed' = [rneed EXCEPT ![self] = TRUE]
+                                  ELSE /\ rneed' = [rneed EXCEPT ![self] = FALSE]
+                            /\ UNCHANGED qstate
+                 /\ IF FixD3 /\ wakeBlocked[rq[self]] # << >>
+                       THEN /\ pc' = [pc EXCEPT ![self] = "rq_notify"]
+                            /\ UNCHANGED << stack, rq >>
+                       ELSE /\ IF rneed'[self]
+                                  THEN /\ pc' = [pc EXCEPT ![self] = "rq_sched"]
                                        /\ UNCHANGED << stack, rq >>
                                   ELSE /\ pc' = [pc EXCEPT ![self] = Head(stack[self]).pc]
                                        /\ rq' = [rq EXCEPT ![self] = Head(stack[self]).rq]
                                        /\ stack' = [stack EXCEPT ![self] = Tail(stack[self])]
-                            /\ UNCHANGED qstate
                  /\ UNCHANGED << qpoll, jobs, wakeBlocked, schedule, pthreads, 
                                  nspawned, palive, busy, busyLocked, inbox, 
                                  chanOpen, pfin, thrHeld, maxThreads, jkind, 
@@ -780,6 +823,29 @@ rq_core(self) == /\ pc[self] = "rq_core"
                                  sti, sq, sj, ww, rsq, bown, bwk, bi, bcur, bw, 
                                  fj, dq, dj, oq, oop, omode, oj, yq, yop, tq, 
                                  top, af, pf, pctx, pq, pj, pd, nq >>
+
+rq_notify(self) == /\ pc[self] = "rq_notify"
+                   /\ cnotif' = [cnotif EXCEPT ![Head(rwb[self])] = cwait[Head(rwb[self])]]
+                   /\ rwb' = [rwb EXCEPT ![self] = Tail(rwb[self])]
+                   /\ IF Len(rwb'[self]) > 0
+                         THEN /\ pc' = [pc EXCEPT ![self] = "rq_notify"]
+                              /\ UNCHANGED << stack, rq >>
+                         ELSE /\ IF ~rneed[self]
+                                    THEN /\ pc' = [pc EXCEPT ![self] = Head(stack[self]).pc]
+                                         /\ rq' = [rq EXCEPT ![self] = Head(stack[self]).rq]
+                                         /\ stack' = [stack EXCEPT ![self] = Tail(stack[self])]
+                                    ELSE /\ pc' = [pc EXCEPT ![self] = "rq_sched"]
+                                         /\ UNCHANGED << stack, rq >>
+                   /\ UNCHANGED << qstate, qpoll, jobs, wakeBlocked, schedule, 
+                                   pthreads, nspawned, palive, busy, 
+                                   busyLocked, inbox, chanOpen, pfin, thrHeld, 
+                                   maxThreads, jkind, jaw, fres, fwaker, 
+                                   gfired, gwaker, gthreads, dwSt, dwW, 
+                                   dblTaken, dblW1, dblW2, nextDW, ready, 
+                                   cwait, sdres, parkTok, rv, rneed, h, dead, 
+                                   sti, sq, sj, ww, rsq, bown, bwk, bi, bcur, 
+                                   bw, fj, dq, dj, oq, oop, omode, oj, yq, yop, 
+                                   tq, top, af, pf, pctx, pq, pj, pd, nq >>
 
 rq_sched(self) == /\ pc[self] = "rq_sched"
                   /\ schedule' = Append(schedule, rq[self])
@@ -796,12 +862,13 @@ rq_sched(self) == /\ pc[self] = "rq_sched"
                                   chanOpen, pfin, thrHeld, maxThreads, jkind, 
                                   jaw, fres, fwaker, gfired, gwaker, gthreads, 
                                   dwSt, dwW, dblTaken, dblW1, dblW2, nextDW, 
-                                  ready, cwait, cnotif, sdres, parkTok, rv, h, 
-                                  rq, sq, sj, ww, rsq, bown, bwk, bi, bcur, bw, 
-                                  fj, dq, dj, oq, oop, omode, oj, yq, yop, tq, 
-                                  top, af, pf, pctx, pq, pj, pd, nq >>
+                                  ready, cwait, cnotif, sdres, parkTok, rv, 
+                                  rwb, rneed, h, rq, sq, sj, ww, rsq, bown, 
+                                  bwk, bi, bcur, bw, fj, dq, dj, oq, oop, 
+                                  omode, oj, yq, yop, tq, top, af, pf, pctx, 
+                                  pq, pj, pd, nq >>
 
-Reschedule(self) == rq_core(self) \/ rq_sched(self)
+Reschedule(self) == rq_core(self) \/ rq_notify(self) \/ rq_sched(self)
 
 sj_push(self) == /\ pc[self] = "sj_push"
                  /\ jobs' = [jobs EXCEPT ![sq[self]] = Append(jobs[sq[self]], sj[self])]
@@ -826,10 +893,11 @@ sj_push(self) == /\ pc[self] = "sj_push"
                                  chanOpen, pfin, thrHeld, maxThreads, jkind, 
                                  jaw, fres, fwaker, gfired, gwaker, gthreads, 
                                  dwSt, dwW, dblTaken, dblW1, dblW2, nextDW, 
-                                 ready, cwait, cnotif, sdres, parkTok, h, dead, 
-                                 sti, rq, ww, rsq, bown, bwk, bi, bcur, bw, fj, 
-                                 dq, dj, oq, oop, omode, oj, yq, yop, tq, top, 
-                                 af, pf, pctx, pq, pj, pd, nq >>
+                                 ready, cwait, cnotif, sdres, parkTok, rwb, 
+                                 rneed, h, dead, sti, rq, ww, rsq, bown, bwk, 
+                                 bi, bcur, bw, fj, dq, dj, oq, oop, omode, oj, 
+                                 yq, yop, tq, top, af, pf, pctx, pq, pj, pd, 
+                                 nq >>
 
 sj_sched(self) == /\ pc[self] = "sj_sched"
                   /\ schedule' = Append(schedule, sq[self])
@@ -846,10 +914,11 @@ sj_sched(self) == /\ pc[self] = "sj_sched"
                                   chanOpen, pfin, thrHeld, maxThreads, jkind, 
                                   jaw, fres, fwaker, gfired, gwaker, gthreads, 
                                   dwSt, dwW, dblTaken, dblW1, dblW2, nextDW, 
-                                  ready, cwait, cnotif, sdres, parkTok, rv, h, 
-                                  rq, sq, sj, ww, rsq, bown, bwk, bi, bcur, bw, 
-                                  fj, dq, dj, oq, oop, omode, oj, yq, yop, tq, 
-                                  top, af, pf, pctx, pq, pj, pd, nq >>
+                                  ready, cwait, cnotif, sdres, parkTok, rv, 
+                                  rwb, rneed, h, rq, sq, sj, ww, rsq, bown, 
+                                  bwk, bi, bcur, bw, fj, dq, dj, oq, oop, 
+                                  omode, oj, yq, yop, tq, top, af, pf, pctx, 
+                                  pq, pj, pd, nq >>
 
 z_sj_ret(self) == /\ pc[self] = "z_sj_ret"
                   /\ rv' = [rv EXCEPT ![self] = 0]
@@ -863,9 +932,10 @@ z_sj_ret(self) == /\ pc[self] = "z_sj_ret"
                                   jkind, jaw, fres, fwaker, gfired, gwaker, 
                                   gthreads, dwSt, dwW, dblTaken, dblW1, dblW2, 
                                   nextDW, ready, cwait, cnotif, sdres, parkTok, 
-                                  h, dead, sti, rq, ww, rsq, bown, bwk, bi, 
-                                  bcur, bw, fj, dq, dj, oq, oop, omode, oj, yq, 
-                                  yop, tq, top, af, pf, pctx, pq, pj, pd, nq >>
+                                  rwb, rneed, h, dead, sti, rq, ww, rsq, bown, 
+                                  bwk, bi, bcur, bw, fj, dq, dj, oq, oop, 
+                                  omode, oj, yq, yop, tq, top, af, pf, pctx, 
+                                  pq, pj, pd, nq >>
 
 ScheduleJob(self) == sj_push(self) \/ sj_sched(self) \/ z_sj_ret(self)
 
@@ -898,9 +968,9 @@ wk_lock(self) == /\ pc[self] = "wk_lock"
                                                                         /\ UNCHANGED qstate
                                                   /\ /\ rq' = [rq EXCEPT ![self] = ww[self].q]
                                                      /\ stack' = [stack EXCEPT ![self] = << [ procedure |->  "Reschedule",
-                                                                                              pc        |->  Head(stack[self]).pc,
+                                                                                              pc        |->  "z_wk_ret",
                                                                                               rq        |->  rq[self] ] >>
-                                                                                          \o Tail(stack[self])]
+                                                                                          \o stack[self]]
                                                   /\ pc' = [pc EXCEPT ![self] = "rq_core"]
                                                   /\ ww' = ww
                                        /\ UNCHANGED << dwSt, dwW, dblTaken, 
@@ -946,10 +1016,10 @@ wk_lock(self) == /\ pc[self] = "wk_lock"
                                  chanOpen, pfin, thrHeld, maxThreads, jkind, 
                                  jaw, fres, fwaker, gfired, gwaker, gthreads, 
                                  dblW1, dblW2, nextDW, ready, cwait, cnotif, 
-                                 sdres, rv, h, dead, sti, sq, sj, rsq, bown, 
-                                 bwk, bi, bcur, bw, fj, dq, dj, oq, oop, omode, 
-                                 oj, yq, yop, tq, top, af, pf, pctx, pq, pj, 
-                                 pd, nq >>
+                                 sdres, rv, rwb, rneed, h, dead, sti, sq, sj, 
+                                 rsq, bown, bwk, bi, bcur, bw, fj, dq, dj, oq, 
+                                 oop, omode, oj, yq, yop, tq, top, af, pf, 
+                                 pctx, pq, pj, pd, nq >>
 
 z_wk_second(self) == /\ pc[self] = "z_wk_second"
                      /\ IF IsLocking(dblW2[ww[self].d])
@@ -966,13 +1036,28 @@ z_wk_second(self) == /\ pc[self] = "z_wk_second"
                                      thrHeld, maxThreads, jkind, jaw, fres, 
                                      fwaker, gfired, gwaker, gthreads, dwSt, 
                                      dwW, dblTaken, dblW1, dblW2, nextDW, 
-                                     ready, cwait, cnotif, sdres, rv, h, dead, 
-                                     sti, rq, sq, sj, rsq, bown, bwk, bi, bcur, 
-                                     bw, fj, dq, dj, oq, oop, omode, oj, yq, 
-                                     yop, tq, top, af, pf, pctx, pq, pj, pd, 
-                                     nq >>
+                                     ready, cwait, cnotif, sdres, rv, rwb, 
+                                     rneed, h, dead, sti, rq, sq, sj, rsq, 
+                                     bown, bwk, bi, bcur, bw, fj, dq, dj, oq, 
+                                     oop, omode, oj, yq, yop, tq, top, af, pf, 
+                                     pctx, pq, pj, pd, nq >>
 
-Wake(self) == wk_lock(self) \/ z_wk_second(self)
+z_wk_ret(self) == /\ pc[self] = "z_wk_ret"
+                  /\ pc' = [pc EXCEPT ![self] = Head(stack[self]).pc]
+                  /\ ww' = [ww EXCEPT ![self] = Head(stack[self]).ww]
+                  /\ stack' = [stack EXCEPT ![self] = Tail(stack[self])]
+                  /\ UNCHANGED << qstate, qpoll, jobs, wakeBlocked, schedule, 
+                                  pthreads, nspawned, palive, busy, busyLocked, 
+                                  inbox, chanOpen, pfin, thrHeld, maxThreads, 
+                                  jkind, jaw, fres, fwaker, gfired, gwaker, 
+                                  gthreads, dwSt, dwW, dblTaken, dblW1, dblW2, 
+                                  nextDW, ready, cwait, cnotif, sdres, parkTok, 
+                                  rv, rwb, rneed, h, dead, sti, rq, sq, sj, 
+                                  rsq, bown, bwk, bi, bcur, bw, fj, dq, dj, oq, 
+                                  oop, omode, oj, yq, yop, tq, top, af, pf, 
+                                  pctx, pq, pj, pd, nq >>
+
+Wake(self) == wk_lock(self) \/ z_wk_second(self) \/ z_wk_ret(self)
 
 rb_step(self) == /\ pc[self] = "rb_step"
                  /\ IF bown[self] # 0 /\ jaw[bown[self]] > 0
@@ -997,10 +1082,10 @@ rb_step(self) == /\ pc[self] = "rb_step"
                                  jkind, jaw, fres, fwaker, gfired, gwaker, 
                                  gthreads, dwSt, dwW, dblTaken, dblW1, dblW2, 
                                  nextDW, ready, cwait, cnotif, sdres, parkTok, 
-                                 rv, stack, dead, sti, rq, sq, sj, ww, rsq, 
-                                 bown, bwk, bw, fj, dq, dj, oq, oop, omode, oj, 
-                                 yq, yop, tq, top, af, pf, pctx, pq, pj, pd, 
-                                 nq >>
+                                 rv, rwb, rneed, stack, dead, sti, rq, sq, sj, 
+                                 ww, rsq, bown, bwk, bw, fj, dq, dj, oq, oop, 
+                                 omode, oj, yq, yop, tq, top, af, pf, pctx, pq, 
+                                 pj, pd, nq >>
 
 z_finish(self) == /\ pc[self] = "z_finish"
                   /\ IF bown[self] = 0
@@ -1066,9 +1151,10 @@ z_finish(self) == /\ pc[self] = "z_finish"
                                   inbox, chanOpen, pfin, thrHeld, maxThreads, 
                                   jkind, fres, fwaker, gfired, dwSt, dwW, 
                                   dblTaken, dblW1, dblW2, nextDW, ready, cwait, 
-                                  cnotif, parkTok, dead, sti, rq, sq, sj, ww, 
-                                  fj, dq, dj, oq, oop, omode, oj, yq, yop, tq, 
-                                  top, af, pf, pctx, pq, pj, pd, nq >>
+                                  cnotif, parkTok, rwb, rneed, dead, sti, rq, 
+                                  sq, sj, ww, fj, dq, dj, oq, oop, omode, oj, 
+                                  yq, yop, tq, top, af, pf, pctx, pq, pj, pd, 
+                                  nq >>
 
 rb_block(self) == /\ pc[self] = "rb_block"
                   /\ parkTok[self]
@@ -1079,11 +1165,11 @@ rb_block(self) == /\ pc[self] = "rb_block"
                                   inbox, chanOpen, pfin, thrHeld, maxThreads, 
                                   jkind, jaw, fres, fwaker, gfired, gwaker, 
                                   gthreads, dwSt, dwW, dblTaken, dblW1, dblW2, 
-                                  nextDW, ready, cwait, cnotif, sdres, rv, h, 
-                                  stack, dead, sti, rq, sq, sj, ww, rsq, bown, 
-                                  bwk, bi, bcur, bw, fj, dq, dj, oq, oop, 
-                                  omode, oj, yq, yop, tq, top, af, pf, pctx, 
-                                  pq, pj, pd, nq >>
+                                  nextDW, ready, cwait, cnotif, sdres, rv, rwb, 
+                                  rneed, h, stack, dead, sti, rq, sq, sj, ww, 
+                                  rsq, bown, bwk, bi, bcur, bw, fj, dq, dj, oq, 
+                                  oop, omode, oj, yq, yop, tq, top, af, pf, 
+                                  pctx, pq, pj, pd, nq >>
 
 z_dispatch(self) == /\ pc[self] = "z_dispatch"
                     /\ IF K(bcur[self]) = "desync"
@@ -1191,9 +1277,10 @@ z_dispatch(self) == /\ pc[self] = "z_dispatch"
                                     busyLocked, inbox, chanOpen, pfin, thrHeld, 
                                     maxThreads, jaw, fres, fwaker, gthreads, 
                                     dwSt, dwW, dblTaken, dblW1, dblW2, nextDW, 
-                                    ready, cwait, cnotif, sdres, dead, sti, rq, 
-                                    rsq, bown, bwk, bi, bcur, fj, dq, dj, oq, 
-                                    oop, omode, oj, pf, pctx, pq, pj, pd, nq >>
+                                    ready, cwait, cnotif, sdres, rwb, rneed, 
+                                    dead, sti, rq, rsq, bown, bwk, bi, bcur, 
+                                    fj, dq, dj, oq, oop, omode, oj, pf, pctx, 
+                                    pq, pj, pd, nq >>
 
 z_then(self) == /\ pc[self] = "z_then"
                 /\ IF OpTab[bcur[self]].then = "await"
@@ -1211,9 +1298,10 @@ z_then(self) == /\ pc[self] = "z_then"
                                 jkind, jaw, fres, fwaker, gfired, gwaker, 
                                 gthreads, dwSt, dwW, dblTaken, dblW1, dblW2, 
                                 nextDW, ready, cwait, cnotif, sdres, parkTok, 
-                                rv, h, dead, sti, rq, sq, sj, ww, rsq, bown, 
-                                bwk, bi, bcur, bw, fj, dq, dj, oq, oop, omode, 
-                                oj, yq, yop, tq, top, pf, pctx, pq, pj, pd, nq >>
+                                rv, rwb, rneed, h, dead, sti, rq, sq, sj, ww, 
+                                rsq, bown, bwk, bi, bcur, bw, fj, dq, dj, oq, 
+                                oop, omode, oj, yq, yop, tq, top, pf, pctx, pq, 
+                                pj, pd, nq >>
 
 RunOps(self) == rb_step(self) \/ z_finish(self) \/ rb_block(self)
                    \/ z_dispatch(self) \/ z_then(self)
@@ -1246,10 +1334,10 @@ fj_lock(self) == /\ pc[self] = "fj_lock"
                                  inbox, chanOpen, pfin, thrHeld, maxThreads, 
                                  jkind, jaw, gfired, gwaker, gthreads, dwSt, 
                                  dwW, dblTaken, dblW1, dblW2, nextDW, cwait, 
-                                 sdres, rv, h, dead, sti, rq, sq, sj, rsq, 
-                                 bown, bwk, bi, bcur, bw, dq, dj, oq, oop, 
-                                 omode, oj, yq, yop, tq, top, af, pf, pctx, pq, 
-                                 pj, pd, nq >>
+                                 sdres, rv, rwb, rneed, h, dead, sti, rq, sq, 
+                                 sj, rsq, bown, bwk, bi, bcur, bw, dq, dj, oq, 
+                                 oop, omode, oj, yq, yop, tq, top, af, pf, 
+                                 pctx, pq, pj, pd, nq >>
 
 fj_sigdrop(self) == /\ pc[self] = "fj_sigdrop"
                     /\ pc' = [pc EXCEPT ![self] = Head(stack[self]).pc]
@@ -1261,10 +1349,11 @@ fj_sigdrop(self) == /\ pc[self] = "fj_sigdrop"
                                     maxThreads, jkind, jaw, fres, fwaker, 
                                     gfired, gwaker, gthreads, dwSt, dwW, 
                                     dblTaken, dblW1, dblW2, nextDW, ready, 
-                                    cwait, cnotif, sdres, parkTok, rv, h, dead, 
-                                    sti, rq, sq, sj, ww, rsq, bown, bwk, bi, 
-                                    bcur, bw, dq, dj, oq, oop, omode, oj, yq, 
-                                    yop, tq, top, af, pf, pctx, pq, pj, pd, nq >>
+                                    cwait, cnotif, sdres, parkTok, rv, rwb, 
+                                    rneed, h, dead, sti, rq, sq, sj, ww, rsq, 
+                                    bown, bwk, bi, bcur, bw, dq, dj, oq, oop, 
+                                    omode, oj, yq, yop, tq, top, af, pf, pctx, 
+                                    pq, pj, pd, nq >>
 
 FinishJob(self) == fj_lock(self) \/ fj_sigdrop(self)
 
@@ -1309,9 +1398,9 @@ pd_deq(self) == /\ pc[self] = "pd_deq"
                                 chanOpen, pfin, thrHeld, maxThreads, jkind, 
                                 jaw, fres, fwaker, gfired, gthreads, dwSt, dwW, 
                                 dblTaken, dblW1, dblW2, nextDW, ready, cwait, 
-                                cnotif, sdres, parkTok, dead, sti, rq, sq, sj, 
-                                ww, fj, dq, oq, oop, omode, oj, yq, yop, tq, 
-                                top, af, pf, pctx, pq, pj, pd, nq >>
+                                cnotif, sdres, parkTok, rwb, rneed, dead, sti, 
+                                rq, sq, sj, ww, fj, dq, oq, oop, omode, oj, yq, 
+                                yop, tq, top, af, pf, pctx, pq, pj, pd, nq >>
 
 z_pd_after(self) == /\ pc[self] = "z_pd_after"
                     /\ IF rv[self] = 5
@@ -1332,10 +1421,11 @@ z_pd_after(self) == /\ pc[self] = "z_pd_after"
                                     maxThreads, jkind, jaw, fres, fwaker, 
                                     gfired, gwaker, gthreads, dwSt, dwW, 
                                     dblTaken, dblW1, dblW2, nextDW, ready, 
-                                    cwait, cnotif, sdres, parkTok, rv, h, dead, 
-                                    sti, rq, sq, sj, ww, rsq, bown, bwk, bi, 
-                                    bcur, bw, dq, dj, oq, oop, omode, oj, yq, 
-                                    yop, tq, top, af, pf, pctx, pq, pj, pd, nq >>
+                                    cwait, cnotif, sdres, parkTok, rv, rwb, 
+                                    rneed, h, dead, sti, rq, sq, sj, ww, rsq, 
+                                    bown, bwk, bi, bcur, bw, dq, dj, oq, oop, 
+                                    omode, oj, yq, yop, tq, top, af, pf, pctx, 
+                                    pq, pj, pd, nq >>
 
 pd_requeue(self) == /\ pc[self] = "pd_requeue"
                     /\ jobs' = [jobs EXCEPT ![dq[self]] = << dj[self] >> \o jobs[dq[self]]]
@@ -1346,11 +1436,11 @@ pd_requeue(self) == /\ pc[self] = "pd_requeue"
                                     maxThreads, jkind, jaw, fres, fwaker, 
                                     gfired, gwaker, gthreads, dwSt, dwW, 
                                     dblTaken, dblW1, dblW2, nextDW, ready, 
-                                    cwait, cnotif, sdres, parkTok, rv, h, 
-                                    stack, dead, sti, rq, sq, sj, ww, rsq, 
-                                    bown, bwk, bi, bcur, bw, fj, dq, dj, oq, 
-                                    oop, omode, oj, yq, yop, tq, top, af, pf, 
-                                    pctx, pq, pj, pd, nq >>
+                                    cwait, cnotif, sdres, parkTok, rv, rwb, 
+                                    rneed, h, stack, dead, sti, rq, sq, sj, ww, 
+                                    rsq, bown, bwk, bi, bcur, bw, fj, dq, dj, 
+                                    oq, oop, omode, oj, yq, yop, tq, top, af, 
+                                    pf, pctx, pq, pj, pd, nq >>
 
 pd_park(self) == /\ pc[self] = "pd_park"
                  /\ IF qstate[dq[self]] = "Running"
@@ -1370,10 +1460,11 @@ pd_park(self) == /\ pc[self] = "pd_park"
                                  chanOpen, pfin, thrHeld, maxThreads, jkind, 
                                  jaw, fres, fwaker, gfired, gwaker, gthreads, 
                                  dwSt, dwW, dblTaken, dblW1, dblW2, nextDW, 
-                                 ready, cwait, cnotif, sdres, parkTok, rv, h, 
-                                 dead, sti, rq, sq, sj, ww, rsq, bown, bwk, bi, 
-                                 bcur, bw, fj, oq, oop, omode, oj, yq, yop, tq, 
-                                 top, af, pf, pctx, pq, pj, pd, nq >>
+                                 ready, cwait, cnotif, sdres, parkTok, rv, rwb, 
+                                 rneed, h, dead, sti, rq, sq, sj, ww, rsq, 
+                                 bown, bwk, bi, bcur, bw, fj, oq, oop, omode, 
+                                 oj, yq, yop, tq, top, af, pf, pctx, pq, pj, 
+                                 pd, nq >>
 
 pd_end(self) == /\ pc[self] = "pd_end"
                 /\ IF jobs[dq[self]] = << >>
@@ -1398,10 +1489,10 @@ pd_end(self) == /\ pc[self] = "pd_end"
                                 chanOpen, pfin, thrHeld, maxThreads, jkind, 
                                 jaw, fres, fwaker, gfired, gwaker, gthreads, 
                                 dwSt, dwW, dblTaken, dblW1, dblW2, nextDW, 
-                                ready, cwait, cnotif, sdres, parkTok, rv, h, 
-                                dead, sti, rq, sq, sj, ww, rsq, bown, bwk, bi, 
-                                bcur, bw, fj, oq, oop, omode, oj, yq, yop, tq, 
-                                top, af, pf, pctx, pq, pj, pd, nq >>
+                                ready, cwait, cnotif, sdres, parkTok, rv, rwb, 
+                                rneed, h, dead, sti, rq, sq, sj, ww, rsq, bown, 
+                                bwk, bi, bcur, bw, fj, oq, oop, omode, oj, yq, 
+                                yop, tq, top, af, pf, pctx, pq, pj, pd, nq >>
 
 PoolDrain(self) == pd_deq(self) \/ z_pd_after(self) \/ pd_requeue(self)
                       \/ pd_park(self) \/ pd_end(self)
@@ -1457,9 +1548,9 @@ ro_deq(self) == /\ pc[self] = "ro_deq"
                                 chanOpen, pfin, thrHeld, maxThreads, jkind, 
                                 jaw, fres, fwaker, gfired, gthreads, dwSt, dwW, 
                                 dblTaken, dblW1, dblW2, nextDW, ready, cwait, 
-                                cnotif, sdres, parkTok, dead, sti, rq, sq, sj, 
-                                ww, fj, dq, dj, yq, yop, tq, top, af, pf, pctx, 
-                                pq, pj, pd, nq >>
+                                cnotif, sdres, parkTok, rwb, rneed, dead, sti, 
+                                rq, sq, sj, ww, fj, dq, dj, yq, yop, tq, top, 
+                                af, pf, pctx, pq, pj, pd, nq >>
 
 z_ro_after(self) == /\ pc[self] = "z_ro_after"
                     /\ IF rv[self] = 5
@@ -1480,10 +1571,11 @@ z_ro_after(self) == /\ pc[self] = "z_ro_after"
                                     maxThreads, jkind, jaw, fres, fwaker, 
                                     gfired, gwaker, gthreads, dwSt, dwW, 
                                     dblTaken, dblW1, dblW2, nextDW, ready, 
-                                    cwait, cnotif, sdres, parkTok, rv, h, dead, 
-                                    sti, rq, sq, sj, ww, rsq, bown, bwk, bi, 
-                                    bcur, bw, dq, dj, oq, oop, omode, oj, yq, 
-                                    yop, tq, top, af, pf, pctx, pq, pj, pd, nq >>
+                                    cwait, cnotif, sdres, parkTok, rv, rwb, 
+                                    rneed, h, dead, sti, rq, sq, sj, ww, rsq, 
+                                    bown, bwk, bi, bcur, bw, dq, dj, oq, oop, 
+                                    omode, oj, yq, yop, tq, top, af, pf, pctx, 
+                                    pq, pj, pd, nq >>
 
 z_ro_done(self) == /\ pc[self] = "z_ro_done"
                    /\ IF omode[self] = "sd" /\ ~sdres[oop[self]]
@@ -1501,10 +1593,10 @@ z_ro_done(self) == /\ pc[self] = "z_ro_done"
                                    maxThreads, jkind, jaw, fres, fwaker, 
                                    gfired, gwaker, gthreads, dwSt, dwW, 
                                    dblTaken, dblW1, dblW2, nextDW, ready, 
-                                   cwait, cnotif, sdres, parkTok, rv, h, dead, 
-                                   sti, rq, sq, sj, ww, rsq, bown, bwk, bi, 
-                                   bcur, bw, fj, dq, dj, yq, yop, tq, top, af, 
-                                   pf, pctx, pq, pj, pd, nq >>
+                                   cwait, cnotif, sdres, parkTok, rv, rwb, 
+                                   rneed, h, dead, sti, rq, sq, sj, ww, rsq, 
+                                   bown, bwk, bi, bcur, bw, fj, dq, dj, yq, 
+                                   yop, tq, top, af, pf, pctx, pq, pj, pd, nq >>
 
 ro_park(self) == /\ pc[self] = "ro_park"
                  /\ IF qstate[oq[self]] = "AwokenWhileRunning"
@@ -1539,7 +1631,7 @@ ro_park(self) == /\ pc[self] = "ro_park"
                                        /\ bw' = [bw EXCEPT ![self] = NoW]
                                        /\ pc' = [pc EXCEPT ![self] = "rb_step"]
                        ELSE /\ Assert(qstate[oq[self]] = "Running", 
-                                      "Failure of assertion at line 334, column 5.")
+                                      "Failure of assertion at line 350, column 5.")
                             /\ qstate' = [qstate EXCEPT ![oq[self]] = "WaitingForUnpark"]
                             /\ pc' = [pc EXCEPT ![self] = "ro_check"]
                             /\ UNCHANGED << gwaker, rv, h, stack, rsq, bown, 
@@ -1549,10 +1641,10 @@ ro_park(self) == /\ pc[self] = "ro_park"
                                  chanOpen, pfin, thrHeld, maxThreads, jkind, 
                                  jaw, fres, fwaker, gfired, gthreads, dwSt, 
                                  dwW, dblTaken, dblW1, dblW2, nextDW, ready, 
-                                 cwait, cnotif, sdres, parkTok, dead, sti, rq, 
-                                 sq, sj, ww, fj, dq, dj, oq, oop, omode, oj, 
-                                 yq, yop, tq, top, af, pf, pctx, pq, pj, pd, 
-                                 nq >>
+                                 cwait, cnotif, sdres, parkTok, rwb, rneed, 
+                                 dead, sti, rq, sq, sj, ww, fj, dq, dj, oq, 
+                                 oop, omode, oj, yq, yop, tq, top, af, pf, 
+                                 pctx, pq, pj, pd, nq >>
 
 ro_check(self) == /\ pc[self] = "ro_check"
                   /\ IF qstate[oq[self]] \in {"Running", "AwokenWhileRunning"}
@@ -1586,7 +1678,7 @@ ro_check(self) == /\ pc[self] = "ro_check"
                                         /\ bw' = [bw EXCEPT ![self] = NoW]
                                         /\ pc' = [pc EXCEPT ![self] = "rb_step"]
                         ELSE /\ Assert(qstate[oq[self]] = "WaitingForUnpark", 
-                                       "Failure of assertion at line 342, column 12.")
+                                       "Failure of assertion at line 358, column 12.")
                              /\ pc' = [pc EXCEPT ![self] = "ro_parked"]
                              /\ UNCHANGED << gwaker, rv, h, stack, rsq, bown, 
                                              bwk, bi, bcur, bw >>
@@ -1595,14 +1687,15 @@ ro_check(self) == /\ pc[self] = "ro_check"
                                   inbox, chanOpen, pfin, thrHeld, maxThreads, 
                                   jkind, jaw, fres, fwaker, gfired, gthreads, 
                                   dwSt, dwW, dblTaken, dblW1, dblW2, nextDW, 
-                                  ready, cwait, cnotif, sdres, parkTok, dead, 
-                                  sti, rq, sq, sj, ww, fj, dq, dj, oq, oop, 
-                                  omode, oj, yq, yop, tq, top, af, pf, pctx, 
-                                  pq, pj, pd, nq >>
+                                  ready, cwait, cnotif, sdres, parkTok, rwb, 
+                                  rneed, dead, sti, rq, sq, sj, ww, fj, dq, dj, 
+                                  oq, oop, omode, oj, yq, yop, tq, top, af, pf, 
+                                  pctx, pq, pj, pd, nq >>
 
 ro_parked(self) == /\ pc[self] = "ro_parked"
                    /\ parkTok[self]
                    /\ parkTok' = [parkTok EXCEPT ![self] = FALSE]
+                   /\ h' = ObsBlocked(h, self)
                    /\ pc' = [pc EXCEPT ![self] = "ro_check"]
                    /\ UNCHANGED << qstate, qpoll, jobs, wakeBlocked, schedule, 
                                    pthreads, nspawned, palive, busy, 
@@ -1610,11 +1703,11 @@ ro_parked(self) == /\ pc[self] = "ro_parked"
                                    maxThreads, jkind, jaw, fres, fwaker, 
                                    gfired, gwaker, gthreads, dwSt, dwW, 
                                    dblTaken, dblW1, dblW2, nextDW, ready, 
-                                   cwait, cnotif, sdres, rv, h, stack, dead, 
-                                   sti, rq, sq, sj, ww, rsq, bown, bwk, bi, 
-                                   bcur, bw, fj, dq, dj, oq, oop, omode, oj, 
-                                   yq, yop, tq, top, af, pf, pctx, pq, pj, pd, 
-                                   nq >>
+                                   cwait, cnotif, sdres, rv, rwb, rneed, stack, 
+                                   dead, sti, rq, sq, sj, ww, rsq, bown, bwk, 
+                                   bi, bcur, bw, fj, dq, dj, oq, oop, omode, 
+                                   oj, yq, yop, tq, top, af, pf, pctx, pq, pj, 
+                                   pd, nq >>
 
 RunOne(self) == ro_deq(self) \/ z_ro_after(self) \/ z_ro_done(self)
                    \/ ro_park(self) \/ ro_check(self) \/ ro_parked(self)
@@ -1678,9 +1771,9 @@ sy_decide(self) == /\ pc[self] = "sy_decide"
                                    maxThreads, jaw, fres, fwaker, gfired, 
                                    gwaker, gthreads, dwSt, dwW, dblTaken, 
                                    dblW1, dblW2, nextDW, ready, cwait, cnotif, 
-                                   sdres, parkTok, dead, sti, rq, sq, sj, ww, 
-                                   fj, dq, dj, oq, oop, omode, oj, tq, top, af, 
-                                   pf, pctx, pq, pj, pd, nq >>
+                                   sdres, parkTok, rwb, rneed, dead, sti, rq, 
+                                   sq, sj, ww, fj, dq, dj, oq, oop, omode, oj, 
+                                   tq, top, af, pf, pctx, pq, pj, pd, nq >>
 
 si_idle(self) == /\ pc[self] = "si_idle"
                  /\ qstate' = [qstate EXCEPT ![yq[self]] = "Idle"]
@@ -1695,10 +1788,11 @@ si_idle(self) == /\ pc[self] = "si_idle"
                                  chanOpen, pfin, thrHeld, maxThreads, jkind, 
                                  jaw, fres, fwaker, gfired, gwaker, gthreads, 
                                  dwSt, dwW, dblTaken, dblW1, dblW2, nextDW, 
-                                 ready, cwait, cnotif, sdres, parkTok, rv, h, 
-                                 dead, sti, sq, sj, ww, rsq, bown, bwk, bi, 
-                                 bcur, bw, fj, dq, dj, oq, oop, omode, oj, yq, 
-                                 yop, tq, top, af, pf, pctx, pq, pj, pd, nq >>
+                                 ready, cwait, cnotif, sdres, parkTok, rv, rwb, 
+                                 rneed, h, dead, sti, sq, sj, ww, rsq, bown, 
+                                 bwk, bi, bcur, bw, fj, dq, dj, oq, oop, omode, 
+                                 oj, yq, yop, tq, top, af, pf, pctx, pq, pj, 
+                                 pd, nq >>
 
 z_si_ret(self) == /\ pc[self] = "z_si_ret"
                   /\ rv' = [rv EXCEPT ![self] = 0]
@@ -1712,9 +1806,10 @@ z_si_ret(self) == /\ pc[self] = "z_si_ret"
                                   jkind, jaw, fres, fwaker, gfired, gwaker, 
                                   gthreads, dwSt, dwW, dblTaken, dblW1, dblW2, 
                                   nextDW, ready, cwait, cnotif, sdres, parkTok, 
-                                  h, dead, sti, rq, sq, sj, ww, rsq, bown, bwk, 
-                                  bi, bcur, bw, fj, dq, dj, oq, oop, omode, oj, 
-                                  tq, top, af, pf, pctx, pq, pj, pd, nq >>
+                                  rwb, rneed, h, dead, sti, rq, sq, sj, ww, 
+                                  rsq, bown, bwk, bi, bcur, bw, fj, dq, dj, oq, 
+                                  oop, omode, oj, tq, top, af, pf, pctx, pq, 
+                                  pj, pd, nq >>
 
 sd_push(self) == /\ pc[self] = "sd_push"
                  /\ jkind' = [jkind EXCEPT ![yop[self]] = "syncdrain"]
@@ -1736,10 +1831,10 @@ sd_push(self) == /\ pc[self] = "sd_push"
                                  inbox, chanOpen, pfin, thrHeld, maxThreads, 
                                  jaw, fres, fwaker, gfired, gwaker, gthreads, 
                                  dwSt, dwW, dblTaken, dblW1, dblW2, nextDW, 
-                                 ready, cwait, cnotif, sdres, parkTok, rv, h, 
-                                 dead, sti, rq, sq, sj, ww, rsq, bown, bwk, bi, 
-                                 bcur, bw, fj, dq, dj, yq, yop, tq, top, af, 
-                                 pf, pctx, pq, pj, pd, nq >>
+                                 ready, cwait, cnotif, sdres, parkTok, rv, rwb, 
+                                 rneed, h, dead, sti, rq, sq, sj, ww, rsq, 
+                                 bown, bwk, bi, bcur, bw, fj, dq, dj, yq, yop, 
+                                 tq, top, af, pf, pctx, pq, pj, pd, nq >>
 
 sd_idle(self) == /\ pc[self] = "sd_idle"
                  /\ qstate' = [qstate EXCEPT ![yq[self]] = "Idle"]
@@ -1754,24 +1849,25 @@ sd_idle(self) == /\ pc[self] = "sd_idle"
                                  chanOpen, pfin, thrHeld, maxThreads, jkind, 
                                  jaw, fres, fwaker, gfired, gwaker, gthreads, 
                                  dwSt, dwW, dblTaken, dblW1, dblW2, nextDW, 
-                                 ready, cwait, cnotif, sdres, parkTok, rv, h, 
-                                 dead, sti, sq, sj, ww, rsq, bown, bwk, bi, 
-                                 bcur, bw, fj, dq, dj, oq, oop, omode, oj, yq, 
-                                 yop, tq, top, af, pf, pctx, pq, pj, pd, nq >>
+                                 ready, cwait, cnotif, sdres, parkTok, rv, rwb, 
+                                 rneed, h, dead, sti, sq, sj, ww, rsq, bown, 
+                                 bwk, bi, bcur, bw, fj, dq, dj, oq, oop, omode, 
+                                 oj, yq, yop, tq, top, af, pf, pctx, pq, pj, 
+                                 pd, nq >>
 
 sb_reg(self) == /\ pc[self] = "sb_reg"
-                /\ wakeBlocked' = [wakeBlocked EXCEPT ![yq[self]] = wakeBlocked[yq[self]] \cup {yop[self]}]
+                /\ wakeBlocked' = [wakeBlocked EXCEPT ![yq[self]] = Append(wakeBlocked[yq[self]], yop[self])]
                 /\ pc' = [pc EXCEPT ![self] = "sb_push"]
                 /\ UNCHANGED << qstate, qpoll, jobs, schedule, pthreads, 
                                 nspawned, palive, busy, busyLocked, inbox, 
                                 chanOpen, pfin, thrHeld, maxThreads, jkind, 
                                 jaw, fres, fwaker, gfired, gwaker, gthreads, 
                                 dwSt, dwW, dblTaken, dblW1, dblW2, nextDW, 
-                                ready, cwait, cnotif, sdres, parkTok, rv, h, 
-                                stack, dead, sti, rq, sq, sj, ww, rsq, bown, 
-                                bwk, bi, bcur, bw, fj, dq, dj, oq, oop, omode, 
-                                oj, yq, yop, tq, top, af, pf, pctx, pq, pj, pd, 
-                                nq >>
+                                ready, cwait, cnotif, sdres, parkTok, rv, rwb, 
+                                rneed, h, stack, dead, sti, rq, sq, sj, ww, 
+                                rsq, bown, bwk, bi, bcur, bw, fj, dq, dj, oq, 
+                                oop, omode, oj, yq, yop, tq, top, af, pf, pctx, 
+                                pq, pj, pd, nq >>
 
 sb_push(self) == /\ pc[self] = "sb_push"
                  /\ jkind' = [jkind EXCEPT ![yop[self]] = "syncbg"]
@@ -1790,31 +1886,34 @@ sb_push(self) == /\ pc[self] = "sb_push"
                                  inbox, chanOpen, pfin, thrHeld, maxThreads, 
                                  jaw, fres, fwaker, gfired, gwaker, gthreads, 
                                  dwSt, dwW, dblTaken, dblW1, dblW2, nextDW, 
-                                 ready, cwait, cnotif, sdres, parkTok, rv, h, 
-                                 dead, sti, sq, sj, ww, rsq, bown, bwk, bi, 
-                                 bcur, bw, fj, dq, dj, oq, oop, omode, oj, yq, 
-                                 yop, tq, top, af, pf, pctx, pq, pj, pd, nq >>
+                                 ready, cwait, cnotif, sdres, parkTok, rv, rwb, 
+                                 rneed, h, dead, sti, sq, sj, ww, rsq, bown, 
+                                 bwk, bi, bcur, bw, fj, dq, dj, oq, oop, omode, 
+                                 oj, yq, yop, tq, top, af, pf, pctx, pq, pj, 
+                                 pd, nq >>
 
 sb_lock(self) == /\ pc[self] = "sb_lock"
                  /\ IF ready[yop[self]]
                        THEN /\ pc' = [pc EXCEPT ![self] = "sb_fin"]
-                            /\ UNCHANGED << cwait, cnotif >>
-                       ELSE /\ IF FixD3 /\ qstate[yq[self]] \in {"Pending", "Idle"}
-                                  THEN /\ TRUE
-                                       /\ pc' = [pc EXCEPT ![self] = "sb_claim"]
+                            /\ UNCHANGED << qstate, schedule, cwait, cnotif >>
+                       ELSE /\ IF FixD3 /\ Claimable(yq[self])
+                                  THEN /\ qstate' = [qstate EXCEPT ![yq[self]] = "Running"]
+                                       /\ schedule' = SelectSeq(schedule, LAMBDA x : x # yq[self])
+                                       /\ pc' = [pc EXCEPT ![self] = "sb_chk"]
                                        /\ UNCHANGED << cwait, cnotif >>
                                   ELSE /\ cwait' = [cwait EXCEPT ![yop[self]] = TRUE]
                                        /\ cnotif' = [cnotif EXCEPT ![yop[self]] = FALSE]
                                        /\ pc' = [pc EXCEPT ![self] = "sb_wait"]
-                 /\ UNCHANGED << qstate, qpoll, jobs, wakeBlocked, schedule, 
-                                 pthreads, nspawned, palive, busy, busyLocked, 
-                                 inbox, chanOpen, pfin, thrHeld, maxThreads, 
-                                 jkind, jaw, fres, fwaker, gfired, gwaker, 
-                                 gthreads, dwSt, dwW, dblTaken, dblW1, dblW2, 
-                                 nextDW, ready, sdres, parkTok, rv, h, stack, 
-                                 dead, sti, rq, sq, sj, ww, rsq, bown, bwk, bi, 
-                                 bcur, bw, fj, dq, dj, oq, oop, omode, oj, yq, 
-                                 yop, tq, top, af, pf, pctx, pq, pj, pd, nq >>
+                                       /\ UNCHANGED << qstate, schedule >>
+                 /\ UNCHANGED << qpoll, jobs, wakeBlocked, pthreads, nspawned, 
+                                 palive, busy, busyLocked, inbox, chanOpen, 
+                                 pfin, thrHeld, maxThreads, jkind, jaw, fres, 
+                                 fwaker, gfired, gwaker, gthreads, dwSt, dwW, 
+                                 dblTaken, dblW1, dblW2, nextDW, ready, sdres, 
+                                 parkTok, rv, rwb, rneed, h, stack, dead, sti, 
+                                 rq, sq, sj, ww, rsq, bown, bwk, bi, bcur, bw, 
+                                 fj, dq, dj, oq, oop, omode, oj, yq, yop, tq, 
+                                 top, af, pf, pctx, pq, pj, pd, nq >>
 
 sb_claim(self) == /\ pc[self] = "sb_claim"
                   /\ IF qstate[yq[self]] \in {"Pending", "Idle"}
@@ -1828,10 +1927,11 @@ sb_claim(self) == /\ pc[self] = "sb_claim"
                                   pfin, thrHeld, maxThreads, jkind, jaw, fres, 
                                   fwaker, gfired, gwaker, gthreads, dwSt, dwW, 
                                   dblTaken, dblW1, dblW2, nextDW, ready, cwait, 
-                                  cnotif, sdres, parkTok, rv, h, stack, dead, 
-                                  sti, rq, sq, sj, ww, rsq, bown, bwk, bi, 
-                                  bcur, bw, fj, dq, dj, oq, oop, omode, oj, yq, 
-                                  yop, tq, top, af, pf, pctx, pq, pj, pd, nq >>
+                                  cnotif, sdres, parkTok, rv, rwb, rneed, h, 
+                                  stack, dead, sti, rq, sq, sj, ww, rsq, bown, 
+                                  bwk, bi, bcur, bw, fj, dq, dj, oq, oop, 
+                                  omode, oj, yq, yop, tq, top, af, pf, pctx, 
+                                  pq, pj, pd, nq >>
 
 sb_chk(self) == /\ pc[self] = "sb_chk"
                 /\ IF ~ready[yop[self]]
@@ -1855,9 +1955,9 @@ sb_chk(self) == /\ pc[self] = "sb_chk"
                                 jkind, jaw, fres, fwaker, gfired, gwaker, 
                                 gthreads, dwSt, dwW, dblTaken, dblW1, dblW2, 
                                 nextDW, ready, cwait, cnotif, sdres, parkTok, 
-                                rv, h, dead, sti, rq, sq, sj, ww, rsq, bown, 
-                                bwk, bi, bcur, bw, fj, dq, dj, yq, yop, tq, 
-                                top, af, pf, pctx, pq, pj, pd, nq >>
+                                rv, rwb, rneed, h, dead, sti, rq, sq, sj, ww, 
+                                rsq, bown, bwk, bi, bcur, bw, fj, dq, dj, yq, 
+                                yop, tq, top, af, pf, pctx, pq, pj, pd, nq >>
 
 sb_idle(self) == /\ pc[self] = "sb_idle"
                  /\ qstate' = [qstate EXCEPT ![yq[self]] = "Idle"]
@@ -1872,30 +1972,48 @@ sb_idle(self) == /\ pc[self] = "sb_idle"
                                  chanOpen, pfin, thrHeld, maxThreads, jkind, 
                                  jaw, fres, fwaker, gfired, gwaker, gthreads, 
                                  dwSt, dwW, dblTaken, dblW1, dblW2, nextDW, 
-                                 ready, cwait, cnotif, sdres, parkTok, rv, h, 
-                                 dead, sti, sq, sj, ww, rsq, bown, bwk, bi, 
-                                 bcur, bw, fj, dq, dj, oq, oop, omode, oj, yq, 
-                                 yop, tq, top, af, pf, pctx, pq, pj, pd, nq >>
+                                 ready, cwait, cnotif, sdres, parkTok, rv, rwb, 
+                                 rneed, h, dead, sti, sq, sj, ww, rsq, bown, 
+                                 bwk, bi, bcur, bw, fj, dq, dj, oq, oop, omode, 
+                                 oj, yq, yop, tq, top, af, pf, pctx, pq, pj, 
+                                 pd, nq >>
 
 sb_wait(self) == /\ pc[self] = "sb_wait"
                  /\ cnotif[yop[self]]
-                 /\ cwait' = [cwait EXCEPT ![yop[self]] = FALSE]
-                 /\ cnotif' = [cnotif EXCEPT ![yop[self]] = FALSE]
+                 /\ h' = ObsBlocked(h, self)
                  /\ IF ready[yop[self]]
-                       THEN /\ pc' = [pc EXCEPT ![self] = "sb_fin"]
-                       ELSE /\ pc' = [pc EXCEPT ![self] = "sb_claim"]
-                 /\ UNCHANGED << qstate, qpoll, jobs, wakeBlocked, schedule, 
-                                 pthreads, nspawned, palive, busy, busyLocked, 
-                                 inbox, chanOpen, pfin, thrHeld, maxThreads, 
-                                 jkind, jaw, fres, fwaker, gfired, gwaker, 
-                                 gthreads, dwSt, dwW, dblTaken, dblW1, dblW2, 
-                                 nextDW, ready, sdres, parkTok, rv, h, stack, 
-                                 dead, sti, rq, sq, sj, ww, rsq, bown, bwk, bi, 
-                                 bcur, bw, fj, dq, dj, oq, oop, omode, oj, yq, 
-                                 yop, tq, top, af, pf, pctx, pq, pj, pd, nq >>
+                       THEN /\ cwait' = [cwait EXCEPT ![yop[self]] = FALSE]
+                            /\ cnotif' = [cnotif EXCEPT ![yop[self]] = FALSE]
+                            /\ pc' = [pc EXCEPT ![self] = "sb_fin"]
+                            /\ UNCHANGED << qstate, schedule >>
+                       ELSE /\ IF ~FixD3
+                                  THEN /\ cwait' = [cwait EXCEPT ![yop[self]] = FALSE]
+                                       /\ cnotif' = [cnotif EXCEPT ![yop[self]] = FALSE]
+                                       /\ pc' = [pc EXCEPT ![self] = "sb_claim"]
+                                       /\ UNCHANGED << qstate, schedule >>
+                                  ELSE /\ IF Claimable(yq[self])
+                                             THEN /\ cwait' = [cwait EXCEPT ![yop[self]] = FALSE]
+                                                  /\ cnotif' = [cnotif EXCEPT ![yop[self]] = FALSE]
+                                                  /\ qstate' = [qstate EXCEPT ![yq[self]] = "Running"]
+                                                  /\ schedule' = SelectSeq(schedule, LAMBDA x : x # yq[self])
+                                                  /\ pc' = [pc EXCEPT ![self] = "sb_chk"]
+                                             ELSE /\ cnotif' = [cnotif EXCEPT ![yop[self]] = FALSE]
+                                                  /\ pc' = [pc EXCEPT ![self] = "sb_wait"]
+                                                  /\ UNCHANGED << qstate, 
+                                                                  schedule, 
+                                                                  cwait >>
+                 /\ UNCHANGED << qpoll, jobs, wakeBlocked, pthreads, nspawned, 
+                                 palive, busy, busyLocked, inbox, chanOpen, 
+                                 pfin, thrHeld, maxThreads, jkind, jaw, fres, 
+                                 fwaker, gfired, gwaker, gthreads, dwSt, dwW, 
+                                 dblTaken, dblW1, dblW2, nextDW, ready, sdres, 
+                                 parkTok, rv, rwb, rneed, stack, dead, sti, rq, 
+                                 sq, sj, ww, rsq, bown, bwk, bi, bcur, bw, fj, 
+                                 dq, dj, oq, oop, omode, oj, yq, yop, tq, top, 
+                                 af, pf, pctx, pq, pj, pd, nq >>
 
 sb_fin(self) == /\ pc[self] = "sb_fin"
-                /\ wakeBlocked' = [wakeBlocked EXCEPT ![yq[self]] = wakeBlocked[yq[self]] \ {yop[self]}]
+                /\ wakeBlocked' = [wakeBlocked EXCEPT ![yq[self]] = SelectSeq(wakeBlocked[yq[self]], LAMBDA x : x # yop[self])]
                 /\ rv' = [rv EXCEPT ![self] = 0]
                 /\ pc' = [pc EXCEPT ![self] = Head(stack[self]).pc]
                 /\ yq' = [yq EXCEPT ![self] = Head(stack[self]).yq]
@@ -1906,10 +2024,10 @@ sb_fin(self) == /\ pc[self] = "sb_fin"
                                 chanOpen, pfin, thrHeld, maxThreads, jkind, 
                                 jaw, fres, fwaker, gfired, gwaker, gthreads, 
                                 dwSt, dwW, dblTaken, dblW1, dblW2, nextDW, 
-                                ready, cwait, cnotif, sdres, parkTok, h, dead, 
-                                sti, rq, sq, sj, ww, rsq, bown, bwk, bi, bcur, 
-                                bw, fj, dq, dj, oq, oop, omode, oj, tq, top, 
-                                af, pf, pctx, pq, pj, pd, nq >>
+                                ready, cwait, cnotif, sdres, parkTok, rwb, 
+                                rneed, h, dead, sti, rq, sq, sj, ww, rsq, bown, 
+                                bwk, bi, bcur, bw, fj, dq, dj, oq, oop, omode, 
+                                oj, tq, top, af, pf, pctx, pq, pj, pd, nq >>
 
 Sync(self) == sy_decide(self) \/ si_idle(self) \/ z_si_ret(self)
                  \/ sd_push(self) \/ sd_idle(self) \/ sb_reg(self)
@@ -1970,9 +2088,9 @@ ts_decide(self) == /\ pc[self] = "ts_decide"
                                    maxThreads, jaw, fres, fwaker, gfired, 
                                    gwaker, gthreads, dwSt, dwW, dblTaken, 
                                    dblW1, dblW2, nextDW, ready, cwait, cnotif, 
-                                   sdres, parkTok, dead, sti, rq, sq, sj, ww, 
-                                   fj, dq, dj, oq, oop, omode, oj, yq, yop, af, 
-                                   pf, pctx, pq, pj, pd, nq >>
+                                   sdres, parkTok, rwb, rneed, dead, sti, rq, 
+                                   sq, sj, ww, fj, dq, dj, oq, oop, omode, oj, 
+                                   yq, yop, af, pf, pctx, pq, pj, pd, nq >>
 
 ts_idle(self) == /\ pc[self] = "ts_idle"
                  /\ qstate' = [qstate EXCEPT ![tq[self]] = "Idle"]
@@ -1987,10 +2105,11 @@ ts_idle(self) == /\ pc[self] = "ts_idle"
                                  chanOpen, pfin, thrHeld, maxThreads, jkind, 
                                  jaw, fres, fwaker, gfired, gwaker, gthreads, 
                                  dwSt, dwW, dblTaken, dblW1, dblW2, nextDW, 
-                                 ready, cwait, cnotif, sdres, parkTok, rv, h, 
-                                 dead, sti, sq, sj, ww, rsq, bown, bwk, bi, 
-                                 bcur, bw, fj, dq, dj, oq, oop, omode, oj, yq, 
-                                 yop, tq, top, af, pf, pctx, pq, pj, pd, nq >>
+                                 ready, cwait, cnotif, sdres, parkTok, rv, rwb, 
+                                 rneed, h, dead, sti, sq, sj, ww, rsq, bown, 
+                                 bwk, bi, bcur, bw, fj, dq, dj, oq, oop, omode, 
+                                 oj, yq, yop, tq, top, af, pf, pctx, pq, pj, 
+                                 pd, nq >>
 
 z_ts_ret(self) == /\ pc[self] = "z_ts_ret"
                   /\ rv' = [rv EXCEPT ![self] = 0]
@@ -2004,9 +2123,10 @@ z_ts_ret(self) == /\ pc[self] = "z_ts_ret"
                                   jkind, jaw, fres, fwaker, gfired, gwaker, 
                                   gthreads, dwSt, dwW, dblTaken, dblW1, dblW2, 
                                   nextDW, ready, cwait, cnotif, sdres, parkTok, 
-                                  h, dead, sti, rq, sq, sj, ww, rsq, bown, bwk, 
-                                  bi, bcur, bw, fj, dq, dj, oq, oop, omode, oj, 
-                                  yq, yop, af, pf, pctx, pq, pj, pd, nq >>
+                                  rwb, rneed, h, dead, sti, rq, sq, sj, ww, 
+                                  rsq, bown, bwk, bi, bcur, bw, fj, dq, dj, oq, 
+                                  oop, omode, oj, yq, yop, af, pf, pctx, pq, 
+                                  pj, pd, nq >>
 
 TrySync(self) == ts_decide(self) \/ ts_idle(self) \/ z_ts_ret(self)
 
@@ -2031,10 +2151,10 @@ z_aw_poll(self) == /\ pc[self] = "z_aw_poll"
                                    maxThreads, jkind, jaw, fres, fwaker, 
                                    gfired, gwaker, gthreads, dwSt, dwW, 
                                    dblTaken, dblW1, dblW2, nextDW, ready, 
-                                   cwait, cnotif, sdres, parkTok, rv, h, dead, 
-                                   sti, rq, sq, sj, ww, rsq, bown, bwk, bi, 
-                                   bcur, bw, fj, dq, dj, oq, oop, omode, oj, 
-                                   yq, yop, tq, top, af, nq >>
+                                   cwait, cnotif, sdres, parkTok, rv, rwb, 
+                                   rneed, h, dead, sti, rq, sq, sj, ww, rsq, 
+                                   bown, bwk, bi, bcur, bw, fj, dq, dj, oq, 
+                                   oop, omode, oj, yq, yop, tq, top, af, nq >>
 
 z_aw_after(self) == /\ pc[self] = "z_aw_after"
                     /\ IF rv[self] = 5
@@ -2053,10 +2173,11 @@ z_aw_after(self) == /\ pc[self] = "z_aw_after"
                                     maxThreads, jkind, jaw, fres, fwaker, 
                                     gfired, gwaker, gthreads, dwSt, dwW, 
                                     dblTaken, dblW1, dblW2, nextDW, ready, 
-                                    cwait, cnotif, sdres, parkTok, rv, dead, 
-                                    sti, rq, sq, sj, ww, rsq, bown, bwk, bi, 
-                                    bcur, bw, fj, dq, dj, oq, oop, omode, oj, 
-                                    yq, yop, tq, top, pf, pctx, pq, pj, pd, nq >>
+                                    cwait, cnotif, sdres, parkTok, rv, rwb, 
+                                    rneed, dead, sti, rq, sq, sj, ww, rsq, 
+                                    bown, bwk, bi, bcur, bw, fj, dq, dj, oq, 
+                                    oop, omode, oj, yq, yop, tq, top, pf, pctx, 
+                                    pq, pj, pd, nq >>
 
 aw_park(self) == /\ pc[self] = "aw_park"
                  /\ parkTok[self]
@@ -2067,11 +2188,11 @@ aw_park(self) == /\ pc[self] = "aw_park"
                                  inbox, chanOpen, pfin, thrHeld, maxThreads, 
                                  jkind, jaw, fres, fwaker, gfired, gwaker, 
                                  gthreads, dwSt, dwW, dblTaken, dblW1, dblW2, 
-                                 nextDW, ready, cwait, cnotif, sdres, rv, h, 
-                                 stack, dead, sti, rq, sq, sj, ww, rsq, bown, 
-                                 bwk, bi, bcur, bw, fj, dq, dj, oq, oop, omode, 
-                                 oj, yq, yop, tq, top, af, pf, pctx, pq, pj, 
-                                 pd, nq >>
+                                 nextDW, ready, cwait, cnotif, sdres, rv, rwb, 
+                                 rneed, h, stack, dead, sti, rq, sq, sj, ww, 
+                                 rsq, bown, bwk, bi, bcur, bw, fj, dq, dj, oq, 
+                                 oop, omode, oj, yq, yop, tq, top, af, pf, 
+                                 pctx, pq, pj, pd, nq >>
 
 Await(self) == z_aw_poll(self) \/ z_aw_after(self) \/ aw_park(self)
 
@@ -2125,10 +2246,10 @@ pf_decide(self) == /\ pc[self] = "pf_decide"
                                    chanOpen, pfin, thrHeld, maxThreads, jkind, 
                                    jaw, gfired, gwaker, gthreads, dwSt, dwW, 
                                    dblTaken, dblW1, dblW2, nextDW, ready, 
-                                   cwait, cnotif, sdres, parkTok, h, dead, sti, 
-                                   rq, sq, sj, ww, rsq, bown, bwk, bi, bcur, 
-                                   bw, fj, dq, dj, oq, oop, omode, oj, yq, yop, 
-                                   tq, top, af, nq >>
+                                   cwait, cnotif, sdres, parkTok, rwb, rneed, 
+                                   h, dead, sti, rq, sq, sj, ww, rsq, bown, 
+                                   bwk, bi, bcur, bw, fj, dq, dj, oq, oop, 
+                                   omode, oj, yq, yop, tq, top, af, nq >>
 
 dq_res(self) == /\ pc[self] = "dq_res"
                 /\ IF fres[pf[self]] = "some"
@@ -2141,11 +2262,11 @@ dq_res(self) == /\ pc[self] = "dq_res"
                                 inbox, chanOpen, pfin, thrHeld, maxThreads, 
                                 jkind, jaw, fwaker, gfired, gwaker, gthreads, 
                                 dwSt, dwW, dblTaken, dblW1, dblW2, nextDW, 
-                                ready, cwait, cnotif, sdres, parkTok, rv, h, 
-                                stack, dead, sti, rq, sq, sj, ww, rsq, bown, 
-                                bwk, bi, bcur, bw, fj, dq, dj, oq, oop, omode, 
-                                oj, yq, yop, tq, top, af, pf, pctx, pq, pj, pd, 
-                                nq >>
+                                ready, cwait, cnotif, sdres, parkTok, rv, rwb, 
+                                rneed, h, stack, dead, sti, rq, sq, sj, ww, 
+                                rsq, bown, bwk, bi, bcur, bw, fj, dq, dj, oq, 
+                                oop, omode, oj, yq, yop, tq, top, af, pf, pctx, 
+                                pq, pj, pd, nq >>
 
 dq_deq(self) == /\ pc[self] = "dq_deq"
                 /\ IF qstate[pq[self]] \in Waiting \/ jobs[pq[self]] = << >>
@@ -2191,9 +2312,9 @@ dq_deq(self) == /\ pc[self] = "dq_deq"
                                 chanOpen, pfin, thrHeld, maxThreads, jkind, 
                                 jaw, fres, fwaker, gfired, gthreads, dwSt, dwW, 
                                 dblTaken, dblW1, dblW2, ready, cwait, cnotif, 
-                                sdres, parkTok, dead, sti, rq, sq, sj, ww, fj, 
-                                dq, dj, oq, oop, omode, oj, yq, yop, tq, top, 
-                                af, pf, pctx, pq, nq >>
+                                sdres, parkTok, rwb, rneed, dead, sti, rq, sq, 
+                                sj, ww, fj, dq, dj, oq, oop, omode, oj, yq, 
+                                yop, tq, top, af, pf, pctx, pq, nq >>
 
 z_dq_after(self) == /\ pc[self] = "z_dq_after"
                     /\ IF rv[self] = 5
@@ -2214,10 +2335,11 @@ z_dq_after(self) == /\ pc[self] = "z_dq_after"
                                     maxThreads, jkind, jaw, fres, fwaker, 
                                     gfired, gwaker, gthreads, dwSt, dwW, 
                                     dblTaken, dblW1, dblW2, nextDW, ready, 
-                                    cwait, cnotif, sdres, parkTok, rv, h, dead, 
-                                    sti, rq, sq, sj, ww, rsq, bown, bwk, bi, 
-                                    bcur, bw, dq, dj, oq, oop, omode, oj, yq, 
-                                    yop, tq, top, af, pf, pctx, pq, pj, pd, nq >>
+                                    cwait, cnotif, sdres, parkTok, rv, rwb, 
+                                    rneed, h, dead, sti, rq, sq, sj, ww, rsq, 
+                                    bown, bwk, bi, bcur, bw, dq, dj, oq, oop, 
+                                    omode, oj, yq, yop, tq, top, af, pf, pctx, 
+                                    pq, pj, pd, nq >>
 
 dq_requeue(self) == /\ pc[self] = "dq_requeue"
                     /\ jobs' = [jobs EXCEPT ![pq[self]] = << pj[self] >> \o jobs[pq[self]]]
@@ -2228,11 +2350,11 @@ dq_requeue(self) == /\ pc[self] = "dq_requeue"
                                     maxThreads, jkind, jaw, fres, fwaker, 
                                     gfired, gwaker, gthreads, dwSt, dwW, 
                                     dblTaken, dblW1, dblW2, nextDW, ready, 
-                                    cwait, cnotif, sdres, parkTok, rv, h, 
-                                    stack, dead, sti, rq, sq, sj, ww, rsq, 
-                                    bown, bwk, bi, bcur, bw, fj, dq, dj, oq, 
-                                    oop, omode, oj, yq, yop, tq, top, af, pf, 
-                                    pctx, pq, pj, pd, nq >>
+                                    cwait, cnotif, sdres, parkTok, rv, rwb, 
+                                    rneed, h, stack, dead, sti, rq, sq, sj, ww, 
+                                    rsq, bown, bwk, bi, bcur, bw, fj, dq, dj, 
+                                    oq, oop, omode, oj, yq, yop, tq, top, af, 
+                                    pf, pctx, pq, pj, pd, nq >>
 
 dq_res2(self) == /\ pc[self] = "dq_res2"
                  /\ IF fres[pf[self]] = "some"
@@ -2245,11 +2367,11 @@ dq_res2(self) == /\ pc[self] = "dq_res2"
                                  inbox, chanOpen, pfin, thrHeld, maxThreads, 
                                  jkind, jaw, fwaker, gfired, gwaker, gthreads, 
                                  dwSt, dwW, dblTaken, dblW1, dblW2, nextDW, 
-                                 ready, cwait, cnotif, sdres, parkTok, rv, h, 
-                                 stack, dead, sti, rq, sq, sj, ww, rsq, bown, 
-                                 bwk, bi, bcur, bw, fj, dq, dj, oq, oop, omode, 
-                                 oj, yq, yop, tq, top, af, pf, pctx, pq, pj, 
-                                 pd, nq >>
+                                 ready, cwait, cnotif, sdres, parkTok, rv, rwb, 
+                                 rneed, h, stack, dead, sti, rq, sq, sj, ww, 
+                                 rsq, bown, bwk, bi, bcur, bw, fj, dq, dj, oq, 
+                                 oop, omode, oj, yq, yop, tq, top, af, pf, 
+                                 pctx, pq, pj, pd, nq >>
 
 dq_waitwake(self) == /\ pc[self] = "dq_waitwake"
                      /\ qstate' = [qstate EXCEPT ![pq[self]] = "WaitingForWake"]
@@ -2261,10 +2383,10 @@ dq_waitwake(self) == /\ pc[self] = "dq_waitwake"
                                      fwaker, gfired, gwaker, gthreads, dwSt, 
                                      dwW, dblTaken, dblW1, dblW2, nextDW, 
                                      ready, cwait, cnotif, sdres, parkTok, rv, 
-                                     h, stack, dead, sti, rq, sq, sj, ww, rsq, 
-                                     bown, bwk, bi, bcur, bw, fj, dq, dj, oq, 
-                                     oop, omode, oj, yq, yop, tq, top, af, pf, 
-                                     pctx, pq, pj, pd, nq >>
+                                     rwb, rneed, h, stack, dead, sti, rq, sq, 
+                                     sj, ww, rsq, bown, bwk, bi, bcur, bw, fj, 
+                                     dq, dj, oq, oop, omode, oj, yq, yop, tq, 
+                                     top, af, pf, pctx, pq, pj, pd, nq >>
 
 dq_ww1(self) == /\ pc[self] = "dq_ww1"
                 /\ IF dwSt[pd[self]] = "Woken"
@@ -2284,10 +2406,11 @@ dq_ww1(self) == /\ pc[self] = "dq_ww1"
                                 inbox, chanOpen, pfin, thrHeld, maxThreads, 
                                 jkind, jaw, fres, fwaker, gfired, gwaker, 
                                 gthreads, dblTaken, dblW1, dblW2, nextDW, 
-                                ready, cwait, cnotif, sdres, parkTok, rv, h, 
-                                dead, sti, rq, sq, sj, rsq, bown, bwk, bi, 
-                                bcur, bw, fj, dq, dj, oq, oop, omode, oj, yq, 
-                                yop, tq, top, af, pf, pctx, pq, pj, pd, nq >>
+                                ready, cwait, cnotif, sdres, parkTok, rv, rwb, 
+                                rneed, h, dead, sti, rq, sq, sj, rsq, bown, 
+                                bwk, bi, bcur, bw, fj, dq, dj, oq, oop, omode, 
+                                oj, yq, yop, tq, top, af, pf, pctx, pq, pj, pd, 
+                                nq >>
 
 z_dq_ready(self) == /\ pc[self] = "z_dq_ready"
                     /\ rv' = [rv EXCEPT ![self] = 0]
@@ -2304,10 +2427,10 @@ z_dq_ready(self) == /\ pc[self] = "z_dq_ready"
                                     maxThreads, jkind, jaw, fres, fwaker, 
                                     gfired, gwaker, gthreads, dwSt, dwW, 
                                     dblTaken, dblW1, dblW2, nextDW, ready, 
-                                    cwait, cnotif, sdres, parkTok, h, dead, 
-                                    sti, rq, sq, sj, ww, rsq, bown, bwk, bi, 
-                                    bcur, bw, fj, dq, dj, oq, oop, omode, oj, 
-                                    yq, yop, tq, top, af, nq >>
+                                    cwait, cnotif, sdres, parkTok, rwb, rneed, 
+                                    h, dead, sti, rq, sq, sj, ww, rsq, bown, 
+                                    bwk, bi, bcur, bw, fj, dq, dj, oq, oop, 
+                                    omode, oj, yq, yop, tq, top, af, nq >>
 
 dq_setwaker(self) == /\ pc[self] = "dq_setwaker"
                      /\ fwaker' = [fwaker EXCEPT ![pf[self]] = pctx[self]]
@@ -2318,11 +2441,11 @@ dq_setwaker(self) == /\ pc[self] = "dq_setwaker"
                                      thrHeld, maxThreads, jkind, jaw, fres, 
                                      gfired, gwaker, gthreads, dwSt, dwW, 
                                      dblTaken, dblW1, dblW2, nextDW, ready, 
-                                     cwait, cnotif, sdres, parkTok, rv, h, 
-                                     stack, dead, sti, rq, sq, sj, ww, rsq, 
-                                     bown, bwk, bi, bcur, bw, fj, dq, dj, oq, 
-                                     oop, omode, oj, yq, yop, tq, top, af, pf, 
-                                     pctx, pq, pj, pd, nq >>
+                                     cwait, cnotif, sdres, parkTok, rv, rwb, 
+                                     rneed, h, stack, dead, sti, rq, sq, sj, 
+                                     ww, rsq, bown, bwk, bi, bcur, bw, fj, dq, 
+                                     dj, oq, oop, omode, oj, yq, yop, tq, top, 
+                                     af, pf, pctx, pq, pj, pd, nq >>
 
 dq_waitpoll(self) == /\ pc[self] = "dq_waitpoll"
                      /\ qstate' = [qstate EXCEPT ![pq[self]] = "WaitingForPoll"]
@@ -2334,11 +2457,11 @@ dq_waitpoll(self) == /\ pc[self] = "dq_waitpoll"
                                      jkind, jaw, fres, fwaker, gfired, gwaker, 
                                      gthreads, dwSt, dwW, dblTaken, dblW1, 
                                      dblW2, nextDW, ready, cwait, cnotif, 
-                                     sdres, parkTok, rv, h, stack, dead, sti, 
-                                     rq, sq, sj, ww, rsq, bown, bwk, bi, bcur, 
-                                     bw, fj, dq, dj, oq, oop, omode, oj, yq, 
-                                     yop, tq, top, af, pf, pctx, pq, pj, pd, 
-                                     nq >>
+                                     sdres, parkTok, rv, rwb, rneed, h, stack, 
+                                     dead, sti, rq, sq, sj, ww, rsq, bown, bwk, 
+                                     bi, bcur, bw, fj, dq, dj, oq, oop, omode, 
+                                     oj, yq, yop, tq, top, af, pf, pctx, pq, 
+                                     pj, pd, nq >>
 
 dq_ww2(self) == /\ pc[self] = "dq_ww2"
                 /\ dblW1' = [dblW1 EXCEPT ![pd[self]] = WQ(pq[self])]
@@ -2360,10 +2483,10 @@ dq_ww2(self) == /\ pc[self] = "dq_ww2"
                                 inbox, chanOpen, pfin, thrHeld, maxThreads, 
                                 jkind, jaw, fres, fwaker, gfired, gwaker, 
                                 gthreads, dblTaken, nextDW, ready, cwait, 
-                                cnotif, sdres, parkTok, rv, h, dead, sti, rq, 
-                                sq, sj, rsq, bown, bwk, bi, bcur, bw, fj, dq, 
-                                dj, oq, oop, omode, oj, yq, yop, tq, top, af, 
-                                pf, pctx, pq, pj, pd, nq >>
+                                cnotif, sdres, parkTok, rv, rwb, rneed, h, 
+                                dead, sti, rq, sq, sj, rsq, bown, bwk, bi, 
+                                bcur, bw, fj, dq, dj, oq, oop, omode, oj, yq, 
+                                yop, tq, top, af, pf, pctx, pq, pj, pd, nq >>
 
 z_dq_pending(self) == /\ pc[self] = "z_dq_pending"
                       /\ rv' = [rv EXCEPT ![self] = 5]
@@ -2380,10 +2503,11 @@ z_dq_pending(self) == /\ pc[self] = "z_dq_pending"
                                       thrHeld, maxThreads, jkind, jaw, fres, 
                                       fwaker, gfired, gwaker, gthreads, dwSt, 
                                       dwW, dblTaken, dblW1, dblW2, nextDW, 
-                                      ready, cwait, cnotif, sdres, parkTok, h, 
-                                      dead, sti, rq, sq, sj, ww, rsq, bown, 
-                                      bwk, bi, bcur, bw, fj, dq, dj, oq, oop, 
-                                      omode, oj, yq, yop, tq, top, af, nq >>
+                                      ready, cwait, cnotif, sdres, parkTok, 
+                                      rwb, rneed, h, dead, sti, rq, sq, sj, ww, 
+                                      rsq, bown, bwk, bi, bcur, bw, fj, dq, dj, 
+                                      oq, oop, omode, oj, yq, yop, tq, top, af, 
+                                      nq >>
 
 dq_empty_w(self) == /\ pc[self] = "dq_empty_w"
                     /\ fwaker' = [fwaker EXCEPT ![pf[self]] = pctx[self]]
@@ -2394,10 +2518,11 @@ dq_empty_w(self) == /\ pc[self] = "dq_empty_w"
                                     maxThreads, jkind, jaw, fres, gfired, 
                                     gwaker, gthreads, dwSt, dwW, dblTaken, 
                                     dblW1, dblW2, nextDW, ready, cwait, cnotif, 
-                                    sdres, parkTok, rv, h, stack, dead, sti, 
-                                    rq, sq, sj, ww, rsq, bown, bwk, bi, bcur, 
-                                    bw, fj, dq, dj, oq, oop, omode, oj, yq, 
-                                    yop, tq, top, af, pf, pctx, pq, pj, pd, nq >>
+                                    sdres, parkTok, rv, rwb, rneed, h, stack, 
+                                    dead, sti, rq, sq, sj, ww, rsq, bown, bwk, 
+                                    bi, bcur, bw, fj, dq, dj, oq, oop, omode, 
+                                    oj, yq, yop, tq, top, af, pf, pctx, pq, pj, 
+                                    pd, nq >>
 
 dq_empty_idle(self) == /\ pc[self] = "dq_empty_idle"
                        /\ qstate' = [qstate EXCEPT ![pq[self]] = "Idle"]
@@ -2414,10 +2539,10 @@ dq_empty_idle(self) == /\ pc[self] = "dq_empty_idle"
                                        fwaker, gfired, gwaker, gthreads, dwSt, 
                                        dwW, dblTaken, dblW1, dblW2, nextDW, 
                                        ready, cwait, cnotif, sdres, parkTok, 
-                                       rv, h, dead, sti, sq, sj, ww, rsq, bown, 
-                                       bwk, bi, bcur, bw, fj, dq, dj, oq, oop, 
-                                       omode, oj, yq, yop, tq, top, af, pf, 
-                                       pctx, pq, pj, pd, nq >>
+                                       rv, rwb, rneed, h, dead, sti, sq, sj, 
+                                       ww, rsq, bown, bwk, bi, bcur, bw, fj, 
+                                       dq, dj, oq, oop, omode, oj, yq, yop, tq, 
+                                       top, af, pf, pctx, pq, pj, pd, nq >>
 
 dq_idle(self) == /\ pc[self] = "dq_idle"
                  /\ qstate' = [qstate EXCEPT ![pq[self]] = "Idle"]
@@ -2432,10 +2557,11 @@ dq_idle(self) == /\ pc[self] = "dq_idle"
                                  chanOpen, pfin, thrHeld, maxThreads, jkind, 
                                  jaw, fres, fwaker, gfired, gwaker, gthreads, 
                                  dwSt, dwW, dblTaken, dblW1, dblW2, nextDW, 
-                                 ready, cwait, cnotif, sdres, parkTok, rv, h, 
-                                 dead, sti, sq, sj, ww, rsq, bown, bwk, bi, 
-                                 bcur, bw, fj, dq, dj, oq, oop, omode, oj, yq, 
-                                 yop, tq, top, af, pf, pctx, pq, pj, pd, nq >>
+                                 ready, cwait, cnotif, sdres, parkTok, rv, rwb, 
+                                 rneed, h, dead, sti, sq, sj, ww, rsq, bown, 
+                                 bwk, bi, bcur, bw, fj, dq, dj, oq, oop, omode, 
+                                 oj, yq, yop, tq, top, af, pf, pctx, pq, pj, 
+                                 pd, nq >>
 
 PollFuture(self) == pf_decide(self) \/ dq_res(self) \/ dq_deq(self)
                        \/ z_dq_after(self) \/ dq_requeue(self)
@@ -2469,9 +2595,9 @@ c_start(self) == /\ pc[self] = "c_start"
                                  jkind, jaw, fres, fwaker, gfired, gwaker, 
                                  gthreads, dwSt, dwW, dblTaken, dblW1, dblW2, 
                                  nextDW, ready, cwait, cnotif, sdres, parkTok, 
-                                 rv, h, dead, sti, rq, sq, sj, ww, fj, dq, dj, 
-                                 oq, oop, omode, oj, yq, yop, tq, top, af, pf, 
-                                 pctx, pq, pj, pd, nq >>
+                                 rv, rwb, rneed, h, dead, sti, rq, sq, sj, ww, 
+                                 fj, dq, dj, oq, oop, omode, oj, yq, yop, tq, 
+                                 top, af, pf, pctx, pq, pj, pd, nq >>
 
 z_c_exit(self) == /\ pc[self] = "z_c_exit"
                   /\ h' = ObsExit(h, self, 0, 0)
@@ -2482,10 +2608,10 @@ z_c_exit(self) == /\ pc[self] = "z_c_exit"
                                   jkind, jaw, fres, fwaker, gfired, gwaker, 
                                   gthreads, dwSt, dwW, dblTaken, dblW1, dblW2, 
                                   nextDW, ready, cwait, cnotif, sdres, parkTok, 
-                                  rv, stack, dead, sti, rq, sq, sj, ww, rsq, 
-                                  bown, bwk, bi, bcur, bw, fj, dq, dj, oq, oop, 
-                                  omode, oj, yq, yop, tq, top, af, pf, pctx, 
-                                  pq, pj, pd, nq >>
+                                  rv, rwb, rneed, stack, dead, sti, rq, sq, sj, 
+                                  ww, rsq, bown, bwk, bi, bcur, bw, fj, dq, dj, 
+                                  oq, oop, omode, oj, yq, yop, tq, top, af, pf, 
+                                  pctx, pq, pj, pd, nq >>
 
 caller(self) == c_start(self) \/ z_c_exit(self)
 
@@ -2504,10 +2630,11 @@ pt_recv(self) == /\ pc[self] = "pt_recv"
                                  chanOpen, thrHeld, maxThreads, jkind, jaw, 
                                  fres, fwaker, gfired, gwaker, gthreads, dwSt, 
                                  dwW, dblTaken, dblW1, dblW2, nextDW, ready, 
-                                 cwait, cnotif, sdres, parkTok, rv, stack, 
-                                 dead, sti, rq, sq, sj, ww, rsq, bown, bwk, bi, 
-                                 bcur, bw, fj, dq, dj, oq, oop, omode, oj, yq, 
-                                 yop, tq, top, af, pf, pctx, pq, pj, pd, nq >>
+                                 cwait, cnotif, sdres, parkTok, rv, rwb, rneed, 
+                                 stack, dead, sti, rq, sq, sj, ww, rsq, bown, 
+                                 bwk, bi, bcur, bw, fj, dq, dj, oq, oop, omode, 
+                                 oj, yq, yop, tq, top, af, pf, pctx, pq, pj, 
+                                 pd, nq >>
 
 pt_next(self) == /\ pc[self] = "pt_next"
                  /\ LET r == NTR(schedule) IN
@@ -2525,10 +2652,10 @@ pt_next(self) == /\ pc[self] = "pt_next"
                                  maxThreads, jkind, jaw, fres, fwaker, gfired, 
                                  gwaker, gthreads, dwSt, dwW, dblTaken, dblW1, 
                                  dblW2, nextDW, ready, cwait, cnotif, sdres, 
-                                 parkTok, rv, h, stack, dead, sti, rq, sq, sj, 
-                                 ww, rsq, bown, bwk, bi, bcur, bw, fj, dq, dj, 
-                                 oq, oop, omode, oj, yq, yop, tq, top, af, pf, 
-                                 pctx, pq, pj, pd >>
+                                 parkTok, rv, rwb, rneed, h, stack, dead, sti, 
+                                 rq, sq, sj, ww, rsq, bown, bwk, bi, bcur, bw, 
+                                 fj, dq, dj, oq, oop, omode, oj, yq, yop, tq, 
+                                 top, af, pf, pctx, pq, pj, pd >>
 
 pt_after(self) == /\ pc[self] = "pt_after"
                   /\ busyLocked' = [busyLocked EXCEPT ![self] = FALSE]
@@ -2550,10 +2677,10 @@ pt_after(self) == /\ pc[self] = "pt_after"
                                   pfin, thrHeld, maxThreads, jkind, jaw, fres, 
                                   fwaker, gfired, gwaker, gthreads, dwSt, dwW, 
                                   dblTaken, dblW1, dblW2, nextDW, ready, cwait, 
-                                  cnotif, sdres, parkTok, rv, h, dead, sti, rq, 
-                                  sq, sj, ww, rsq, bown, bwk, bi, bcur, bw, fj, 
-                                  oq, oop, omode, oj, yq, yop, tq, top, af, pf, 
-                                  pctx, pq, pj, pd, nq >>
+                                  cnotif, sdres, parkTok, rv, rwb, rneed, h, 
+                                  dead, sti, rq, sq, sj, ww, rsq, bown, bwk, 
+                                  bi, bcur, bw, fj, oq, oop, omode, oj, yq, 
+                                  yop, tq, top, af, pf, pctx, pq, pj, pd, nq >>
 
 pt_done(self) == /\ pc[self] = "pt_done"
                  /\ TRUE
@@ -2564,10 +2691,10 @@ pt_done(self) == /\ pc[self] = "pt_done"
                                  jkind, jaw, fres, fwaker, gfired, gwaker, 
                                  gthreads, dwSt, dwW, dblTaken, dblW1, dblW2, 
                                  nextDW, ready, cwait, cnotif, sdres, parkTok, 
-                                 rv, h, stack, dead, sti, rq, sq, sj, ww, rsq, 
-                                 bown, bwk, bi, bcur, bw, fj, dq, dj, oq, oop, 
-                                 omode, oj, yq, yop, tq, top, af, pf, pctx, pq, 
-                                 pj, pd, nq >>
+                                 rv, rwb, rneed, h, stack, dead, sti, rq, sq, 
+                                 sj, ww, rsq, bown, bwk, bi, bcur, bw, fj, dq, 
+                                 dj, oq, oop, omode, oj, yq, yop, tq, top, af, 
+                                 pf, pctx, pq, pj, pd, nq >>
 
 pool(self) == pt_recv(self) \/ pt_next(self) \/ pt_after(self)
                  \/ pt_done(self)
